@@ -5,6 +5,7 @@ import sys
 import common as c
 import c0809_lib as L
 import c09_contexts as X
+import c09_parser as PH
 
 PID = "C09"
 MANIFEST = {
@@ -19,9 +20,18 @@ MANIFEST = {
             "binary) and the comment-sequence oracle searched on the implementation over generated programs with "
             "comments at every position class the grammar admits",
     "note": "trusted: Coq kernel + vm_compute; hand transcription of formatter.rs / format_blots loop / --format loop "
-            "(validated by the FORMAT correspondence on every run); pest parser and pairs_to_expr_with_comments are "
-            "NOT modelled (the parser half is tested on the implementation only; comments swallowed by NEWLINE (F20) and "
-            "comments in item-less lists/records are open known findings); blots-wasm is not built natively, its loop is mirrored in harness/src/s_c0809.rs; "
+            "(validated by the FORMAT correspondence on every run); PARSER HALF (coq/PegComments.v over the PEG model "
+            "coq/Peg.v + gen/Grammar.v): pairs_to_expr_with_comments (pending comments, leading / trailing fields, the "
+            "attach-to-last step) and the drivers' statement loop are transcribed and compared with the real parser on every "
+            "run (C09P stream: commented-AST skeleton with every comment's role, statement lines, comment pairs); proved: "
+            "the commented Pratt glue keeps every comment of its token stream in order, the tree's comment pairs = the "
+            "program's comments (C09_parse_keeps_comments), and tree -> emitted text for both drivers, under two decidable "
+            "grammar-shape hypotheses that the stream TESTS on every interpreter tree (not proved of the interpreter) and "
+            "with the explicit exclusion C09-empty-container (refuted witness `[ // c <LF> ]`); F20 (comments consumed by "
+            "NEWLINE) is characterised on the regenerated grammar (NEWLINE / inline_comment / plain_newline silent and "
+            "closed; 6-byte witness through the interpreter, re-run on the real parser); PARTIAL: the interpreter-level "
+            "lemma 'quiet rules emit no pairs' is stated (C09_quiet_rules_emit_no_pairs_full), not proved; "
+            "both findings stay open; blots-wasm is not built natively, its loop is mirrored in harness/src/s_c0809.rs; "
             "no axioms",
     "design_ref": "DESIGN.md section 6 C09; notes/C09.md",
 }
@@ -128,6 +138,8 @@ def main(argv):
         quick = tier == "quick"
         # ---- correspondence
         validated = L.correspondence(res, h, clir, rng, 250 if quick else 3000, PID, "c09")
+        # ---- parser half: text -> pair tree (Peg.v) -> commented AST (PegComments.v) against the real parser
+        validated += PH.parser_half(h, res, c.Rng(seed ^ 0x0C09B), tier, L.py_scan)
         # ---- the property on the implementation
         progs = (L.corpus_programs(PID) + X.programs(rng, 400 if quick else 20000) +
                  L.gen_programs(rng, 500 if quick else 12000, h=h))
